@@ -20,10 +20,12 @@ func NewK8sMetaInformation(fullFilename string) (K8sMetaInformation, error) {
 	}
 
 	// Extract the filename without the path
-	filename := fullFilename[lastSlash+1 : len(fullFilename)-4]
-	if len(filename) < 4 { // Ensure there's enough length for the expected format
+	// the base name without its 4-byte extension must keep at least 4 bytes (checked before slicing: a shorter
+	// name would make the slice bounds cross)
+	if len(fullFilename)-4 < lastSlash+1+4 {
 		return K8sMetaInformation{}, errors.New("invalid filename: too short after removing extension")
 	}
+	filename := fullFilename[lastSlash+1 : len(fullFilename)-4]
 
 	// Extract pod name
 	underscore := strings.IndexByte(filename, '_')
